@@ -115,7 +115,7 @@ Proof.
   set (s3 := with_heap s2 (set_nth o i1 (heap s2))).
   assert (H3 : Inv cfg m roots s3).
   { apply Inv_upd; try assumption; try reflexivity.
-    - unfold i1. rewrite Hbl. split; reflexivity.
+    - unfold i1. rewrite Hbl. split; [reflexivity|split; reflexivity].
     - intros _ Hl. contradiction. }
   assert (G3 : get_inst s3 o = i1) by (apply get_inst_set_same; exact Hlt).
   assert (E23 : ext s2 s3) by (apply ext_upd; reflexivity).
@@ -185,7 +185,7 @@ Proof.
     destruct (row_len roots s k id r H Hsel) as (Hlen & _).
     assert (H2 : Inv cfg m roots s2).
     { apply Inv_upd; try assumption; try reflexivity.
-      - unfold i1. apply (get_inst_hp _ _ _ _ o) in H1. exact H1.
+      - unfold i1. pose proof (get_inst_hp _ _ _ _ o H1) as Hq. hp_from Hq.
       - intros _ _. split; [now apply vals3_row|]. intros _ _. apply shows_fresh_row; [exact Hpend|].
         rewrite Ek, Ei. exact Hsel. }
     assert (G2 : get_inst s2 o = i1) by (apply get_inst_set_same; exact Hlt).
@@ -194,7 +194,7 @@ Proof.
     assert (Hlt2 : (o < length (heap s2))%nat) by (unfold s2; cbn; rewrite length_set_nth; exact Hlt).
     assert (H3 : Inv cfg m roots s3).
     { apply Inv_upd; try assumption; try reflexivity.
-      - unfold i2. apply (get_inst_hp _ _ _ _ o) in H2. exact H2.
+      - unfold i2. pose proof (get_inst_hp _ _ _ _ o H2) as Hq. hp_from Hq.
       - intros Hco Hl2. destruct (inv_L _ _ _ _ H2 o Hl2) as (_ & (_ & _ & B3) & _). exact (B3 Hco). }
     assert (G3 : get_inst s3 o = i2) by (apply get_inst_set_same; exact Hlt2).
     assert (Hl3 : live s3 roots o) by exact Hlive.
@@ -207,7 +207,7 @@ Proof.
     unfold bind at 1, new_inst. cbn [fst snd].
     set (o := length (heap s1)).
     set (s2 := with_heap s1 (heap s1 ++ [blank_inst k id])).
-    assert (H2 : Inv cfg m roots s2) by (apply Inv_new; [exact H1|reflexivity|split; reflexivity]).
+    assert (H2 : Inv cfg m roots s2) by (apply Inv_new; [exact H1|reflexivity|split; [reflexivity|split; reflexivity]]).
     assert (E12 : ext s1 s2) by apply ext_new.
     assert (Hlt2 : (o < length (heap s2))%nat) by (unfold s2, o; cbn; rewrite app_length; cbn; lia).
     assert (G2 : get_inst s2 o = blank_inst k id) by (unfold get_inst, s2, o; cbn; apply nth_middle).
@@ -305,7 +305,7 @@ Proof.
   intros H Hl. unfold so_setattr. unfold bind at 1, gets. cbn [fst snd].
   set (i := get_inst s o).
   destruct (inv_L _ _ _ _ H o Hl) as (Hlt & (B1 & B2 & B3) & Hor).
-  pose proof (get_inst_hp _ _ _ _ o H) as (Hd & Hnl). fold i in Hd, Hnl.
+  pose proof (get_inst_hp _ _ _ _ o H) as (Hd & Hnl & Hex). fold i in Hd, Hnl, Hex.
   assert (Hv : (exists v', validate v s = (Ret v', s) /\ v' = v) \/ validate v s = (Raise EInvalid, s)).
   { destruct v; cbn; [left; eexists; split; reflexivity|left; eexists; split; reflexivity|right; reflexivity]. }
   unfold bind at 1. destruct Hv as [(v' & Ev & ->)|Ev]; rewrite Ev; [|split; [exact H|apply ext_refl]].
@@ -315,14 +315,15 @@ Proof.
     + split.
       * unfold dirty_ok, has_pending. cbn. destruct (nassoc_set c v (i_pending i)) eqn:E; [|reflexivity].
         exfalso. eapply nassoc_set_nonempty; eauto.
-      * cbn. congruence.
+      * split; [cbn; congruence|exact Hex].
     + intros Hc _. destruct (B3 Hc) as (V & S). fold i in V, S. split; [cbn; now apply vals3_set_nth|].
       cbn. intros Hcur Hcv. apply shows_setattr_lazy; [exact V|exact (S Hcur Hcv)].
-  - apply (write_spec roots s o [(c, v)] (cache_values (i_k i)) (set_val c v) H Hl); fold i.
+  - rewrite Hex. cbn [negb]. rewrite andb_true_r.
+    apply (write_spec roots s o [(c, v)] (cache_values (i_k i)) (set_val c v) H Hl); fold i.
     + destruct (cache_values (i_k i)); reflexivity.
     + destruct (cache_values (i_k i)); reflexivity.
     + destruct (cache_values (i_k i)); reflexivity.
-    + destruct (cache_values (i_k i)); (split; [exact Hd|intros _; exact (Hnl eq_refl)]).
+    + destruct (cache_values (i_k i)); (split; [exact Hd|split; [intros _; exact (Hnl eq_refl)|exact Hex]]).
     + intros Hc. destruct (B3 Hc) as (V & _). fold i in V.
       split; [destruct (cache_values (i_k i)); [cbn; now apply vals3_set_nth|exact V]|].
       intros Hcv r Hr. rewrite Hcv. destruct (live_shows roots s o r H Hl Hc Hr) as (_ & Hlen & S).
@@ -337,7 +338,7 @@ Proof.
   intros H Hl. unfold so_set. unfold bind at 1, gets. cbn [fst snd].
   set (i := get_inst s o).
   destruct (inv_L _ _ _ _ H o Hl) as (Hlt & (B1 & B2 & B3) & Hor).
-  pose proof (get_inst_hp _ _ _ _ o H) as (Hd & Hnl). fold i in Hd, Hnl, B3.
+  pose proof (get_inst_hp _ _ _ _ o H) as (Hd & Hnl & Hex). fold i in Hd, Hnl, Hex, B3.
   pose proof (NoDup_as_dict kvs) as Hnd.
   set (kw := as_dict kvs) in *.
   destruct (fold_set_val_fields kw i) as (Fd & Fp & Fk & Fi & Fe & Fo & Fc). cbn zeta in Fd, Fp, Fk, Fi, Fe, Fo, Fc.
@@ -349,15 +350,16 @@ Proof.
       * unfold dirty_ok, has_pending. cbn. destruct kw as [|kv kw'] eqn:Ekw; [exact Hd|].
         destruct (pending_update (kv :: kw') (i_pending i)) eqn:E2; [|reflexivity].
         exfalso. eapply pending_update_nonempty; [|exact E2]. left. discriminate.
-      * cbn. rewrite Fk. congruence.
+      * split; [cbn; rewrite Fk; congruence|cbn; rewrite Fe; exact Hex].
     + intros Hc _. destruct (B3 Hc) as (V & S). split; [now apply vals3_fold_set_val|].
       intros Hcur Hcv. rewrite Fo in Hcur. rewrite Fk in Hcv. apply shows_batch_lazy; [exact Hnd|exact V|exact (S Hcur Hcv)].
-  - destruct kw as [|kv kw'] eqn:Ekw.
+  - rewrite Hex. cbn [negb]. rewrite andb_true_r.
+    destruct kw as [|kv kw'] eqn:Ekw.
     + unfold bind, ret. cbn [fst snd].
       destruct (cache_values (i_k i)) eqn:Hcv; [|split; [exact H|apply ext_refl]].
       unfold upd_inst, modify. cbn [fst snd fold_left]. fold i. split; [|apply ext_upd; reflexivity].
       apply Inv_upd; try assumption; try reflexivity.
-      * split; [exact Hd|intros _; exact (Hnl eq_refl)].
+      * split; [exact Hd|split; [intros _; exact (Hnl eq_refl)|exact Hex]].
       * intros Hc _. destruct (B3 Hc) as (V & S). split; [exact V|intros Hcur _; apply S; [exact Hcur|reflexivity]].
     + rewrite <- Ekw in *. clear Ekw.
       apply (write_spec roots s o (sorted_pending kw) (cache_values (i_k i))
@@ -365,8 +367,8 @@ Proof.
       * destruct (cache_values (i_k i)); [exact Fk|reflexivity].
       * destruct (cache_values (i_k i)); [exact Fi|reflexivity].
       * destruct (cache_values (i_k i)); [exact Fo|reflexivity].
-      * destruct (cache_values (i_k i)); [|split; [exact Hd|intros _; exact (Hnl eq_refl)]].
-        split; [unfold dirty_ok, has_pending in *; rewrite Fd, Fp; exact Hd|intros _; rewrite Fp; exact (Hnl eq_refl)].
+      * destruct (cache_values (i_k i)); [|split; [exact Hd|split; [intros _; exact (Hnl eq_refl)|exact Hex]]].
+        split; [unfold dirty_ok, has_pending in *; rewrite Fd, Fp; exact Hd|split; [intros _; rewrite Fp; exact (Hnl eq_refl)|rewrite Fe; exact Hex]].
       * intros Hc. destruct (B3 Hc) as (V & _).
         split; [destruct (cache_values (i_k i)); [now apply vals3_fold_set_val|exact V]|].
         intros Hcv r Hr. rewrite Hcv. destruct (live_shows roots s o r H Hl Hc Hr) as (_ & Hlen & S).
@@ -383,14 +385,14 @@ Proof.
   intros H Hl. unfold so_sync_update. unfold bind at 1, gets. cbn [fst snd].
   set (i := get_inst s o).
   destruct (inv_L _ _ _ _ H o Hl) as (Hlt & (B1 & B2 & B3) & Hor).
-  pose proof (get_inst_hp _ _ _ _ o H) as (Hd & Hnl). fold i in Hd, Hnl, B3.
+  pose proof (get_inst_hp _ _ _ _ o H) as (Hd & Hnl & Hex). fold i in Hd, Hnl, Hex, B3.
   destruct (negb (i_cv i)); [split; [exact H|apply ext_refl]|].
   destruct (i_pending i) as [|p0 ps] eqn:Ep; [split; [exact H|split; [apply ext_refl|exact Ep]]|].
   rewrite <- Ep.
   pose proof (write_spec roots s o (sorted_pending (i_pending i)) true
                (fun i => i_with_pending (i_with_dirty i false) []) H Hl) as W. fold i in W. cbn zeta in W.
   specialize (W eq_refl eq_refl eq_refl).
-  assert (Hhp : hp (i_with_pending (i_with_dirty i false) [])) by (split; reflexivity).
+  assert (Hhp : hp (i_with_pending (i_with_dirty i false) [])) by (split; [reflexivity|split; [reflexivity|exact Hex]]).
   specialize (W Hhp).
   assert (Hco : co m = true -> vals3 (i_vals (i_with_pending (i_with_dirty i false) [])) /\
             (cache_values (i_k i) = true -> forall r, assoc (i_id i) (t_rows (tbl s (i_k i))) = Some r ->
@@ -430,12 +432,12 @@ Proof.
   set (s1 := with_heap s (set_nth o i1 (heap s))).
   assert (H1 : Inv cfg m roots s1).
   { apply Inv_upd; try assumption; try reflexivity.
-    - apply (get_inst_hp _ _ _ _ o) in H. exact H.
+    - pose proof (get_inst_hp _ _ _ _ o H) as Hq. hp_from Hq.
     - intros Hc _. split; [now apply vals3_row|]. intros _ _. apply shows_fresh_row; [exact (Hp Hc)|exact Hr]. }
   assert (Hlt1 : (o < length (heap s1))%nat) by (unfold s1; cbn; rewrite length_set_nth; exact Hlt).
   split.
   - apply Inv_upd; try assumption; try reflexivity.
-    + apply (get_inst_hp _ _ _ _ o) in H1. exact H1.
+    + pose proof (get_inst_hp _ _ _ _ o H1) as Hq. hp_from Hq.
     + intros Hc Hl1. destruct (inv_L _ _ _ _ H1 o Hl1) as (_ & (_ & _ & B3) & _). exact (B3 Hc).
   - eapply ext_trans; [apply (ext_upd s o i1); reflexivity|apply ext_upd; reflexivity].
 Qed.
@@ -448,7 +450,7 @@ Proof.
   unfold so_sync. unfold bind at 1, gets. cbn [fst snd].
   set (i := get_inst s o).
   destruct (inv_L _ _ _ _ H o Hl) as (Hlt & _ & _).
-  pose proof (get_inst_hp _ _ _ _ o H) as (Hd & Hnl). fold i in Hd, Hnl.
+  pose proof (get_inst_hp _ _ _ _ o H) as (Hd & Hnl & Hex). fold i in Hd, Hnl, Hex.
   unfold bind at 1.
   (* the flush *)
   assert (Hfl : match (if is_lazy (i_k i) then match i_pending i with [] => ret tt | _ => so_sync_update o end else ret tt) s with
@@ -495,7 +497,7 @@ Proof.
     set (s1 := with_heap s (set_nth o (i_with_expired i false) (heap s))).
     assert (H1 : Inv cfg m roots s1).
     { apply Inv_upd; try assumption; try reflexivity.
-      - apply (get_inst_hp _ _ _ _ o) in H. exact H.
+      - pose proof (get_inst_hp _ _ _ _ o H) as Hq. hp_from Hq.
       - intros Hc. congruence. }
     assert (E1 : ext s s1) by (apply ext_upd; reflexivity).
     assert (Hlt1 : (o < length (heap s1))%nat) by (unfold s1; cbn; rewrite length_set_nth; exact Hlt).
@@ -509,7 +511,7 @@ Proof.
     unfold bind, select_init, upd_inst, modify, ret. cbn [fst snd].
     split.
     + apply Inv_upd; try assumption; try reflexivity.
-      * apply (get_inst_hp _ _ _ _ o) in H2. exact H2.
+      * pose proof (get_inst_hp _ _ _ _ o H2) as Hq. hp_from Hq.
       * intros Hc. congruence.
     + eapply ext_trans; [exact E2|apply ext_upd; reflexivity].
   - destruct (i_obsolete i); [split; [exact H|apply ext_refl]|].
@@ -599,7 +601,7 @@ Proof.
   set (inew := i_with_vals (blank_inst (p_k pk) (p_id pk)) (p_vals pk)).
   set (o := length (heap s)).
   set (s1 := with_heap s (heap s ++ [inew])).
-  assert (H1 : Inv cfg m [] s1) by (apply Inv_new; [exact H|reflexivity|split; reflexivity]).
+  assert (H1 : Inv cfg m [] s1) by (apply Inv_new; [exact H|reflexivity|split; [reflexivity|split; reflexivity]]).
   assert (G1 : get_inst s1 o = inew) by (unfold get_inst, s1, o; cbn; apply nth_middle).
   assert (Hlt1 : (o < length (heap s1))%nat) by (unfold s1, o; cbn; rewrite app_length; cbn; lia).
   unfold bind at 1.
